@@ -112,7 +112,7 @@ SYNTHETIC["syn-names"] = {
     "privilege_escalation": {"pe_svchost": {"process": "svchost", "os": "Windows", "prob": 1.0, "cost": 1, "access": "root"},
                              "pe_Svc": {"process": "Svc", "os": "windows10", "prob": 0.5, "cost": 2, "access": "root"}},
     "service_scan_cost": 1, "os_scan_cost": 1, "subnet_scan_cost": 1, "process_scan_cost": 1,
-    "host_configurations": {"(1, 0)": {"os": "Windows", "services": ["https", "sftp"], "processes": ["svchost"]},
+    "host_configurations": {"(1, 0)": {"os": "windows10", "services": ["https", "sftp"], "processes": ["svchost"]},
                             "(2, 0)": {"os": "win", "services": ["HTTP"], "processes": ["Svc"]}},
     "firewall": {"(0, 1)": ["https"], "(1, 0)": [], "(1, 2)": ["HTTP", "https"], "(2, 1)": ["sftp"]},
 }
